@@ -102,12 +102,19 @@ COMMANDS = [
 READONLY = COMMANDS[:8]
 
 
+GLOBAL_FLAGS = ["--debug", "--suppress-deprecation", "--include-submodules", "--include-meson-subprojects"]
+
+
 def _steps_for(rng, cmds, pool_p=0.4, extra=None):
     out = []
     for c in cmds:
         st = dict(extra or {})
-        serial = rng is None or not rng.chance(pool_p) or c[0] in ("annotate", "convert-dep5", "supported-licenses")
-        if serial and c[0] != "download":
+        if rng is not None and rng.chance(0.3):
+            # global options: --debug runs every debug formatting path over the same weird input
+            c = rng.sample(GLOBAL_FLAGS, rng.randint(1, 2)) + list(c)
+        name = next((x for x in c if not x.startswith("--")), c[0])
+        serial = rng is None or not rng.chance(pool_p) or name in ("annotate", "convert-dep5", "supported-licenses")
+        if serial and name != "download":
             st["argv"] = ["--no-multiprocessing"] + list(c)
         else:
             st["argv"] = list(c)
@@ -300,7 +307,7 @@ def oracle(case, results):
     for vi, var in enumerate(case["variants"]):
         st = var["steps"][0]
         rec = results[vi]["records"][0]
-        cmd = [a for a in st["argv"] if a != "--no-multiprocessing"]
+        cmd = [a for a in st["argv"] if a != "--no-multiprocessing" and a not in GLOBAL_FLAGS]
         name = cmd[0]
         if rec.get("timeout"):
             vs.append({"sig": f"C16/no-termination/{name}", "detail": f"argv={st['argv']} trigger={case.get('trigger')}"})
